@@ -589,3 +589,42 @@ prop('C05',
      'justified by the counts observable at the call boundary, and no access may fall outside the storage.',
      level_note='Schedules are sampled for the free-preemption case; one interrupt per scenario in the sweep (two '
      'simultaneous producers or consumers are outside the supported pattern).')
+
+# ----------------------------------------------------------------------- C15
+CON = [R + 'console.c', R + 'ringbuf.c'] + FIB
+prop('C15',
+     'exh: every stream of length 7 (quick) / 9 (thorough) over {a, space, \', ", backspace, Ctrl-C, newline} that '
+     'contains a newline, delivered with console_process; rand: streams of 1-5 lines with lengths clustered at 0, 1 and '
+     '77..82, bare and quoted tokens (blanks and the other quote inside), edits (junk+backspaces, over- and '
+     'under-erasing, Ctrl-C and retype), delivered in turn by console_process, console_putchar+scheduler (bursts <= 15) '
+     'and console_eval, with commands that exit at once or yield 1-3 times; reg: 0-39 registrations in random order '
+     'from a pool sorting on both sides of the built-ins, every name then looked up, unknown and near-miss names, the '
+     'built-in echo. Non-trivial = stream with an edit character and a quote, or a line within 2 of the 79 limit, or a '
+     'registration scenario that fills the table; distinct by content hash.',
+     [Stage('exh', ['harness/console.c'], CON, preset='asan', nproc=16,
+            args={'quick': ['--extra', 'exh'], 'thorough': ['--extra', 'exh']}, timeout={'quick': 900, 'thorough': 7200}),
+      Stage('rand', ['harness/console.c'], CON, preset='asan', nproc=16,
+            args={'quick': ['--extra', 'rand'], 'thorough': ['--extra', 'rand']},
+            needs_min={'dispatches_compared_functionally': 50000, 'streams_with_line_near_the_79_limit': 10000,
+                       'eval_injections': 10000}),
+      Stage('reg', ['harness/console.c'], CON, preset='asan', nproc=8,
+            args={'quick': ['--extra', 'reg'], 'thorough': ['--extra', 'reg']},
+            needs_min={'scenarios_filling_the_table': 100, 'lookups_checked': 5000}),
+      Stage('rand-clang', ['harness/console.c'], CON, preset='asan', cc='clang', nproc=16, tiers=('thorough',),
+            args={'thorough': ['--extra', 'rand', '--cases', '2000000']})],
+     assumptions=['functional oracle only on the unambiguous domain: first character neither blank nor quote, tokens '
+                  'separated by blanks, each bare without quote characters or wholly and non-emptily quoted; with more '
+                  'than four tokens argv[3] need only begin with the fourth token; after a line was completed by the '
+                  'buffer filling, the next line is not predicted (the triggering character may or may not be kept)',
+                  'console_putchar is fed in bursts that never overflow the 15-character ring (dropping is documented)',
+                  'console_hwinit is supplied by the harness; console_posix.c is not linked',
+                  'ILP32 layouts cannot be run in this sandbox'],
+     exhaustive_note='exh stage: every stream of the stated length over the 7-symbol alphabet',
+     engine='E1', technique='runtime monitoring: edited-line reference model with predicted argc/argv on the unambiguous '
+     'domain, structural argv checks on all streams, three delivery paths, exactly-sized heap console under ASan+UBSan',
+     level_text='Exploration. Enumerated and generated character streams are delivered through console_process, '
+     'console_putchar+fibre and console_eval to the real console.c under ASan+UBSan; a capturing command records '
+     'argc/argv (checked to lie inside the line buffer and be terminated there) and, for unambiguous lines, compares '
+     'them with the model\'s tokens of the edited line; registration orders and counts beyond the table size are '
+     'looked up name by name.',
+     level_note='Outside the unambiguous domain only safety and structure are checked. LP64 only.')
